@@ -1,12 +1,12 @@
 CONSTANTS
- Producers = {"p1","p2"}
- K = 2
+ Producers = {"p1","p2","p3"}
+ K = 1
  Shapes <- ShOk12
- MaxFaults = 0
+ MaxFaults = 1
  MaxCrashes = 0
  MaxIdxLoss = 0
- SyncFlush = TRUE
- InlineAt = 0
+ SyncFlush = FALSE
+ InlineAt = 2
  Interval = 2
  MBs = {0,9,80,200}
  FixRestore = TRUE
@@ -27,4 +27,4 @@ INIT Init
 NEXT Next
 VIEW View
 CHECK_DEADLOCK FALSE
-INVARIANTS C01_AckedDurable C02_Unique C02_Monotone C02_NoGap C02_BaseIsStored C05_Monotone C05_NotAhead C06_NoHide C06_NoReuse C03_FetchExact C04_Progress C06_Readable
+INVARIANTS C02_Unique C02_Monotone C02_BaseIsStored C05_Monotone C05_NotAhead C03_FetchExact C04_Progress
